@@ -1008,7 +1008,15 @@ impl Formatter {
     fn format_literal(&mut self, lit: &Literal) {
         match lit {
             Literal::Int(n) => self.writer.write(&n.to_string()),
-            Literal::Float(f) => self.writer.write(&f.to_string()),
+            Literal::Float(f) => {
+                // Keep the literal a float: `1.0` and `1e10` display as `1` / `10000000000`, which re-lex as ints.
+                let text = f.to_string();
+                if text.chars().all(|c| c.is_ascii_digit() || c == '-') {
+                    self.writer.write(&format!("{text}.0"));
+                } else {
+                    self.writer.write(&text);
+                }
+            }
             Literal::String(s) => {
                 self.writer.write("\"");
                 self.writer.write(&escape_string(s));
